@@ -164,8 +164,15 @@ def _run(call: GeneratorCall) -> Module:
         msg = f"Generator {call.gen} returned {m}, must return `Module`."
         raise RuntimeError(msg)
 
+    # If the Module was itself produced by a `Generator`, i.e. this one returned another's result,
+    # it has its unique name already. Renaming it here would change the name of a Module others
+    # may already hold, once for each Generator that hands it along.
+    named_by_generator = m._generated_by is not None
+
     # Give the result a reference back to the generating `Call`
     m._generated_by = call
+    if named_by_generator:
+        return m
 
     # Module naming
     # If the Module that comes back is anonymous, start by giving it a name equal to the Generator's
